@@ -5,6 +5,7 @@ import (
 	"go/types"
 
 	"github.com/awslabs/ar-go-tools/analysis/config"
+	df "github.com/awslabs/ar-go-tools/analysis/dataflow"
 	"golang.org/x/tools/go/ssa"
 )
 
@@ -108,5 +109,49 @@ func Harness_C02_validator_polarity() {
 		}
 	} else {
 		verifAssert("an-error-value-alone-is-not-a-condition", !got || true)
+	}
+}
+
+// Harness_C02_validated_branches: end to end (real intra-procedural analysis + real forward taint Visitor) on
+// `t0 = source(); c = Validate(t0)` with the sink placed on the validated branch, the other branch, after the join,
+// before the validator, or in a single-block loop before the validator: the flow may be dropped only where every
+// path to the sink passes the branch on which the validator returned true.
+func Harness_C02_validated_branches() {
+	shape := verifPick("shape", 0, 6)
+	w := df.VerifNewValidatorWorld(shape)
+	verifAssert("summary-built", w.Err == nil && w.Source != nil && w.Sink != nil)
+	if w.Err != nil || w.Source == nil || w.Sink == nil {
+		return
+	}
+	spec := &config.TaintSpec{
+		Sources:    []config.CodeIdentifier{config.NewCodeIdentifier(config.CodeIdentifier{Package: "example.com/p", Method: "^source$"})},
+		Sinks:      []config.CodeIdentifier{config.NewCodeIdentifier(config.CodeIdentifier{Package: "example.com/p", Method: "^sink$"})},
+		Validators: []config.CodeIdentifier{config.NewCodeIdentifier(config.CodeIdentifier{Package: "example.com/p", Method: "^Validate$"})},
+	}
+	v := NewVisitor(spec)
+	verifTerminatesWithin("forward-visit-terminates", 4000000)
+	v.Visit(w.State, df.NodeWithTrace{Node: w.Source})
+	verifTerminated()
+	verifReach("visited")
+	reported := false
+	for sinkNode, sources := range v.taints.Sinks {
+		if sinkNode.Instr == w.Sink.CallSite() {
+			for src := range sources {
+				if src.Instr == w.Source.CallSite() {
+					reported = true
+				}
+			}
+		}
+	}
+	switch shape {
+	case 1, 3, 4, 5:
+		// the sink is reached with unvalidated data: else branch, before the validator, first loop iteration,
+		// branch on which the validator returned false
+		verifAssert("unvalidated-flow-is-reported", reported)
+	case 2:
+		// after the join the sink is also reached through the branch where validation failed
+		verifAssertKnown("flow-bypassing-the-validated-branch-is-reported", "KF-C02-single-path", true, reported)
+	case 0, 6:
+		verifAssert("flow-only-through-the-validated-branch-is-dropped", !reported)
 	}
 }
